@@ -27,6 +27,7 @@ REQUIRED_FEATURES = ["bases:1", "bases:2", "base:variable-width", "base:fixed-wi
                      "cli:spec:<r>B", "cli:spec:4DN", "cli:spec:list", "nproc>1",
                      "history:output-path-reused", "bases:mixed-value-dtypes", "cli:maxres-is-a-ladder-member",
                      "set:no-derived-level", "cli:base-is-level-of-mcool", "cli:base-in-subgroup-with-root-decoy",
+                     "bases:second-base-has-own-content",
                      "bases:independent-2b-3b"]
 SHARD_TIMEOUT = {"quick": 1800, "thorough": 7200}
 
@@ -71,7 +72,20 @@ MULT_SETS = [[2, 4], [2, 3, 6], [6, 2, 3, 12, 4], [5, 10, 50, 25], [1, 2], [2, 4
              [1, 3, 9], [10, 2, 20, 5], [7, 14], [1], []]
 
 
-def verify_mcool(c, out, bt, P, symm, b, want_res, base_res, base_uri_by_res, label):
+def level_is(out, grp, bt_, P_, k_):
+    """level == coarsening of (bt_, P_) by k_ (bins and pixel table), without recording anything."""
+    want_bt = model.ref_coarsen_bt(bt_, k_)
+    with h5py.File(out, "r") as f:
+        g = f[grp]
+        names = [x.decode() for x in g["chroms/name"][:]]
+        got_bins = list(zip([names[i] for i in g["bins/chrom"][:].tolist()], g["bins/start"][:].tolist(), g["bins/end"][:].tolist()))
+    keys, cols = read_pixels_raw(out, grp, ("count",))
+    want = model.ref_coarsen(bt_, P_, k_)
+    wk = sorted(want)
+    return got_bins == gen.bt_bins_list(want_bt) and keys == wk and cols["count"].tolist() == [want[x] for x in wk]
+
+
+def verify_mcool(c, out, bt, P, symm, b, want_res, base_res, base_uri_by_res, label, alt=None):
     """All clauses on a finished multires file."""
     import cooler
 
@@ -98,10 +112,21 @@ def verify_mcool(c, out, bt, P, symm, b, want_res, base_res, base_uri_by_res, la
                     == h5state.digest_uri(src_path, src_grp, tables=tabs, attrs=False))
             k1, c1 = read_pixels_raw(out, grp, ("count",))
             k2, c2 = read_pixels_raw(src_path, src_grp, ("count",))
-            same = same and k1 == k2 and c1["count"].tolist() == c2["count"].tolist()
-            c.check(same, "base-level-not-a-faithful-copy", f"[{label}] base level {r} differs from its source")
+            same = same and k1 == k2 and c1["count"].tolist() == c2["count"].tolist() and c1["count"].dtype == c2["count"].dtype
+            finer = [q for q in base_res if q < r and r % q == 0]
+            c.check(same, "base-level-not-a-faithful-copy" + (":base-is-multiple-of-a-finer-base" if finer else ""),
+                    f"[{label}] base level {r} differs from its source" +
+                    (f" (another supplied base, {finer[0]}, divides it)" if finer else ""),
+                    lambda: {"diff": h5state.diff_uris(out, src_path, grp, src_grp)[:8]})
         k = r // b
-        if k == 1:
+        if alt is not None and r == alt[2]:
+            pass        # a base with content of its own: decided by the faithful-copy clause above
+        elif alt is not None and r % alt[2] == 0:
+            # derivable from either base: must equal coarsening of ONE of them (whatever chain was used)
+            c.check(level_is(out, grp, bt, P, k) or level_is(out, grp, alt[0], alt[1], r // alt[2]),
+                    "derived-level-equals-coarsening-of-no-base",
+                    f"[{label}] level {r} is neither the {k}-coarsening of base {b} nor the {r // alt[2]}-coarsening of base {alt[2]}")
+        elif k == 1:
             keys, cols = read_pixels_raw(out, grp, ("count",))
             c.check(keys == sorted(P) and cols["count"].tolist() == [P[x] for x in sorted(P)],
                     "base-level-not-a-faithful-copy", f"[{label}] level {r} differs from the generated base pixels")
@@ -133,6 +158,7 @@ def api_case(ctx, shard, i, rng):
     mults = list(MULT_SETS[int(rng.integers(len(MULT_SETS)))])
     mode = (shard["sub"] * 5 + i) % 6
     two_bases = mode == 1 and not variable
+    own_base2 = None
     nonderiv = mode == 2
     res = [m * b for m in mults]
     bases = {b: (base, base_grp)}
@@ -149,6 +175,16 @@ def api_case(ctx, shard, i, rng):
         b2dt = np.float64 if rng.random() < 0.5 else None          # the second base may use another value dtype
         cooler.coarsen_cooler(base_uri, b2path + "::" + b2grp, k2, chunksize=10**6,
                               dtypes={"count": b2dt} if b2dt else None)
+        if rng.random() < 0.5:
+            # a second base with content of its own (separately filtered / balanced map at the coarser resolution):
+            # other pixel values and a weight column in its bin table
+            bt2 = model.ref_coarsen_bt(bt, k2)
+            P2 = gen.gen_pixels(rng, gen.bt_nbins(bt2), symm, "sparse70") or {(0, 0): 7}
+            P2 = {kk: v + 1000 for kk, v in P2.items()}
+            w2 = np.round(rng.uniform(0.5, 2.0, size=gen.bt_nbins(bt2)), 6)
+            make_cooler(b2path + "::" + b2grp, bt2, P2, symm=symm, bins_extra={"weight": w2}, mode="a",
+                        count_dtype=b2dt)
+            own_base2 = (bt2, P2, b * k2)
         base_dtypes[b * k2] = "float64" if b2dt else "int32"
         bases[b * k2] = (b2path, b2grp)
         base_uris.append(b2path + "::" + b2grp)
@@ -220,12 +256,13 @@ def api_case(ctx, shard, i, rng):
             c.feature("history:output-path-reused")
         cooler.zoomify_cooler(base_uris if len(base_uris) > 1 else base_uris[0], out, res, chunksize=cs, nproc=nproc)
         want_res = sorted(set(res) | set(bases))
-        verify_mcool(c, out, bt, P, symm, b, want_res, set(bases), bases, "api")
+        if own_base2:
+            c.feature("bases:second-base-has-own-content")
+        verify_mcool(c, out, bt, P, symm, b, want_res, set(bases), bases, "api", alt=own_base2)
         # value dtype of every level == dtype of the base it derives from (largest smaller divisor chain)
         if len(set(base_dtypes.values())) > 1:
             c.feature("bases:mixed-value-dtypes")
-        # (a base that is itself derivable from a smaller level is recomputed from it by zoomify_cooler;
-        #  values are those of its source - checked above - but the dtype then follows the smaller base)
+        # (a derived level may come from any base that divides it - whatever chain was used)
         with h5py.File(out, "r") as f:
             for r in want_res:
                 dt = str(f[f"/resolutions/{r}/pixels/count"].dtype)
